@@ -81,6 +81,7 @@ type Amb struct {
 	Shapes        []string // cyclic schedule of wire shapes for RTP packets handed to a Read
 	nRTP, nRTCP   int64
 	nShape        int64
+	Opts          map[string]string // every k=v of the op: options private to one component's interpreter
 }
 
 // ambSched is a set of 1-based call numbers: listed ones and every multiple of the `%k` entries.
@@ -130,7 +131,7 @@ func parseAmb(op string) Amb {
 	}
 	return Amb{Before: split(m["before"]), After: split(m["after"]), Chain: m["chain"] == "1", Reuse: m["reuse"] == "1",
 		NilAttr: m["nilattr"] == "1", FreshInfo: m["freshinfo"] == "1", ReuseHdr: m["reusehdr"] == "1", FreshAttr: m["attrs"] == "1",
-		FailRTP: parseSched(m["failrtp"]), FailRTCP: parseSched(m["failrtcp"]), Shapes: split(m["shapes"])}
+		FailRTP: parseSched(m["failrtp"]), FailRTCP: parseSched(m["failrtcp"]), Shapes: split(m["shapes"]), Opts: m}
 }
 
 func ambNeighbour(kind string) interceptor.Interceptor {
